@@ -69,6 +69,24 @@ type Case struct {
 	Pattern string `json:"pattern"`
 	Update  []Opt  `json:"update,omitempty"` // when non-nil the route is then updated with these options
 	DoUpd   bool   `json:"do_update,omitempty"`
+	// Shared: equal trailing-slash and resolver options are one and the same fox.Option value wherever they occur - in the
+	// router's option list, the route's and the update's (options are values: applying one leaves it as it was).
+	Shared bool `json:"shared,omitempty"`
+}
+
+// shared option values of the case being checked (nil = build a fresh value every time)
+var sharedOpts map[string]fox.Option
+
+func sharedOpt(key string, mk func() fox.Option) fox.Option {
+	if sharedOpts == nil {
+		return mk()
+	}
+	if o, ok := sharedOpts[key]; ok {
+		return o
+	}
+	o := mk()
+	sharedOpts[key] = o
+	return o
 }
 
 type resolver struct{ id int }
@@ -127,6 +145,7 @@ func fold(s state, opts []Opt, route bool) state {
 		case "resolver":
 			if route {
 				s.resolver = o.ID // nil per-route resolver means none
+				s.ambiguousResolver = false
 			} else if o.ID != 0 {
 				s.resolver = o.ID
 			} else if s.resolver != 0 {
@@ -162,11 +181,11 @@ func toGlobal(opts []Opt, trace *[]int) []fox.GlobalOption {
 	for _, o := range opts {
 		switch o.Kind {
 		case "ignore":
-			out = append(out, fox.WithIgnoreTrailingSlash(o.On))
+			out = append(out, sharedOpt(fmt.Sprint("ignore", o.On), func() fox.Option { return fox.WithIgnoreTrailingSlash(o.On) }))
 		case "redirect":
-			out = append(out, fox.WithRedirectTrailingSlash(o.On))
+			out = append(out, sharedOpt(fmt.Sprint("redirect", o.On), func() fox.Option { return fox.WithRedirectTrailingSlash(o.On) }))
 		case "resolver":
-			out = append(out, fox.WithClientIPResolver(res(o.ID)))
+			out = append(out, sharedOpt(fmt.Sprint("resolver", o.ID), func() fox.Option { return fox.WithClientIPResolver(res(o.ID)) }))
 		case "mw":
 			out = append(out, fox.WithMiddleware(tracer(o.ID, trace)))
 		}
@@ -179,11 +198,11 @@ func toRoute(opts []Opt, trace *[]int) []fox.RouteOption {
 	for _, o := range opts {
 		switch o.Kind {
 		case "ignore":
-			out = append(out, fox.WithIgnoreTrailingSlash(o.On))
+			out = append(out, sharedOpt(fmt.Sprint("ignore", o.On), func() fox.Option { return fox.WithIgnoreTrailingSlash(o.On) }))
 		case "redirect":
-			out = append(out, fox.WithRedirectTrailingSlash(o.On))
+			out = append(out, sharedOpt(fmt.Sprint("redirect", o.On), func() fox.Option { return fox.WithRedirectTrailingSlash(o.On) }))
 		case "resolver":
-			out = append(out, fox.WithClientIPResolver(res(o.ID)))
+			out = append(out, sharedOpt(fmt.Sprint("resolver", o.ID), func() fox.Option { return fox.WithClientIPResolver(res(o.ID)) }))
 		case "mw":
 			out = append(out, fox.WithMiddleware(tracer(o.ID, trace)))
 		case "annot":
@@ -276,6 +295,11 @@ func checkCase(c *Case, count bool) (err error) {
 	special := func(kind string) fox.HandlerFunc {
 		return func(ctx fox.Context) { seen[kind] = clientIP(ctx); ctx.Writer().WriteHeader(299) }
 	}
+	sharedOpts = nil
+	if c.Shared {
+		sharedOpts = map[string]fox.Option{}
+	}
+	defer func() { sharedOpts = nil }()
 	gopts := toGlobal(c.Global, &trace)
 	gopts = append(gopts, fox.WithNoRouteHandler(special("noroute")), fox.WithNoMethodHandler(special("nomethod")), fox.WithOptionsHandler(special("options")),
 		fox.WithMiddlewareFor(fox.RedirectHandler, func(next fox.HandlerFunc) fox.HandlerFunc {
@@ -424,7 +448,7 @@ func genOpts(t *rapid.T, route bool, label string) []Opt {
 
 func TestOptionSequences(t *testing.T) {
 	rapid.Check(t, func(t *rapid.T) {
-		c := &Case{Global: genOpts(t, false, "g"), Route: genOpts(t, true, "r")}
+		c := &Case{Global: genOpts(t, false, "g"), Route: genOpts(t, true, "r"), Shared: gen.Chance(t, 1, 3, "shared")}
 		for {
 			c.Pattern = gen.Pattern(t, nil, 2, false)
 			if ref.ValidPattern(c.Pattern, 65535, 65535) && !strings.Contains(c.Pattern, "//") {
@@ -461,6 +485,9 @@ func TestOptionSequences(t *testing.T) {
 		}
 		if c.DoUpd {
 			stats.Class("with-update")
+		}
+		if c.Shared {
+			stats.Class("equal-options-are-one-shared-value")
 		}
 		if err := checkCase(c, true); err != nil {
 			stats.Fail("options", c, "%v", err)
